@@ -6,9 +6,10 @@ From Coq Require Import ZArith NArith List.
 From Verif.C02_Prims Require Import Model Stream ProofsLE ProofsPrims ProofsStream ProofsPairs.
 Import ListNotations.
 
-(* Every primitive, from every state (sticky error or not), on every input: no panic, offset + remaining is
+(* Every primitive (ReadObject, ReadPayload, GetObjectType and ReadSliceOfObjects = DSeq over obj_item included), from
+   every state (sticky error or not), on every input: no panic, offset + remaining is
    preserved (so the offset never passes the end of the input), and the cost is at most the bytes this call consumed
-   + 64. Guards: the length-prefix type is a known one and item callbacks keep their contract (wf_op); for the cost,
+   + 64. Guards: the length-prefix type is a known one and item callbacks / selected objects keep their contract (wf_op); for the cost,
    successful items consume at least one byte (guarded; otherwise C02_refuted_zero_size_items). *)
 Theorem C02_prim_total_bounded : forall s o, wf_op o ->
   exists s' out c, dstep s o = SOk s' out c /\ total s' = total s /\ (off s <= off s')%nat /\
@@ -29,11 +30,35 @@ Proof. exact drun_cost. Qed.
 Example C02_guards_inhabited :
   let ops := [DBool; DNum I32; DVar L32 0 10; DString L8 1 0; DU256; DTime; DPayloadLen;
               DSeq true L16 (item_run IVar) (mkRules 0 3 VLexNoDup); DSeq false L64 (item_run (IFixed 2)) (mkRules 0 0 VNone);
+              DGetType TDU32; DObject TDByte (hsel 1 0 2); DPayload (hsel 4 0 2);
+              DSeq true L8 (obj_item TDU32 (hsel 4 1 3)) (mkRules 0 0 VNoDup);      (* ReadSliceOfObjects *)
               DConsumedAll] in
   wf_prog ops /\ guarded_prog ops.
 Proof.
-  split; repeat constructor; try discriminate; try apply item_run_ok; apply item_run_consuming; discriminate.
+  assert (Hcons : forall hdr k1 k2, (1 <= hdr)%nat -> forall ty f, hsel hdr k1 k2 ty = Some f -> consuming f).
+  { intros hdr k1 k2 Hh ty f. unfold hsel.
+    destruct (orb (ty =? 0)%Z (ty =? 1)%Z); [intros H; inversion H; apply hobj_consuming; auto with arith|].
+    destruct (ty =? 2)%Z; [intros H; inversion H; apply hobj_consuming; auto with arith|].
+    destruct (ty =? 3)%Z; [intros H; inversion H; intros b n E; discriminate | discriminate]. }
+  split.
+  - unfold wf_prog. repeat (apply Forall_cons || apply Forall_nil); cbn [wf_op]; auto; try discriminate;
+      try (split; [discriminate|]); try apply item_run_ok; try apply hsel_ok; apply obj_item_ok; apply hsel_ok.
+  - unfold guarded_prog. repeat (apply Forall_cons || apply Forall_nil); cbn [guarded]; auto;
+      try (apply item_run_consuming; discriminate).
+    apply obj_item_consuming. apply Hcons. auto with arith.
 Qed.
+
+(* ReadPayload at the very end of the input: a declared payload length of 1..3 with exactly that many bytes left is
+   "not enough data" (MinPayloadByteSize = 5 is checked before the 4-byte payload type is read: the model panics at
+   that read when fewer than 4 bytes are left, and C02_prim_total_bounded shows the guard excludes it); 4 bytes left
+   behind a length of 4 is still rejected (5 > 4); a 6-byte payload behind a length of 6 is read. *)
+Example C02_payload_end_of_input :
+  let sel := hsel 4 0 2 in
+  dstep (dinit [2; 0; 0; 0; 170; 187]%N) (DPayload sel) = SOk (mkD [170; 187]%N 4 (Some ENotEnough)) ONone 0 /\
+  dstep (dinit [1; 0; 0; 0; 170]%N) (DPayload sel) = SOk (mkD [170]%N 4 (Some ENotEnough)) ONone 0 /\
+  dstep (dinit [4; 0; 0; 0; 1; 0; 0; 0]%N) (DPayload sel) = SOk (mkD [1; 0; 0; 0]%N 4 (Some ENotEnough)) ONone 0 /\
+  dstep (dinit [6; 0; 0; 0; 2; 0; 0; 0; 7; 8]%N) (DPayload sel) = SOk (mkD [] 10 None) (OBytes [2; 0; 0; 0; 7; 8]%N) 0.
+Proof. repeat split; vm_compute; reflexivity. Qed.
 
 (* D02d (known finding): zero-size items iterate prefix-many times: 2 bytes of input, 65535 iterations. *)
 Theorem C02_refuted_zero_size_items :
